@@ -202,6 +202,11 @@ def drives(quick):
         dict(name="units_mA_um", dev="bar", cur={"source": 0.004, "drain": -0.004}, A=0.2, opts=dict(dt_init=1e-2, adaptive=False, current_units="mA")),
         dict(name="units_uA_nm_device", dev="bar3", dev_kw=dict(length_units="nm", scale=1000.0), cur={"source": 3.0, "drain": -1.0, "top": -2.0}, A=0.0, opts=dict(dt_init=1e-2, adaptive=False)),
     ]
+    # a device moved IN PLACE after it was meshed (a sample shifted under a fixed source): the terminals are where the terminal
+    # polygons are now -- along their film edge by more than one boundary edge, across it by less than the pad thickness
+    d += [dict(name="2term_translated_in_place_after_meshing", dev="bar", dev_kw=dict(max_edge_length=0.8), moved=(0.03, 0.6), cur={"source": 4.0, "drain": -4.0}, A=0.2, opts=dict(dt_init=1e-2, adaptive=False)),
+          dict(name="4term_translated_in_place_after_meshing", dev="cross4", dev_kw=dict(max_edge_length=0.9), moved=(0.55, -0.4), cur={"source": 2.0, "drain": -1.0, "top": -3.0, "bottom": 2.0}, A=0.3,
+               opts=dict(dt_init=1e-2, adaptive=False))]
     if not quick:
         d += [
             dict(name="no_current_ring", dev="ring", cur=None, A=0.6, opts=dict(dt_init=1e-2, adaptive=False)),
@@ -231,9 +236,12 @@ def run_level(ctx, stop_first=False):
     first = None
     devs = {}  # one device object per kind: successive solves share it (nothing may carry over from an earlier solve)
     for dr in drives(ctx.quick):
-        dkey = (dr["dev"], repr(sorted(dr.get("dev_kw", {}).items())))
+        dkey = (dr["dev"], repr(sorted(dr.get("dev_kw", {}).items())), repr(dr.get("moved")))
         if dkey not in devs:
             devs[dkey] = zoo.make_device(dr["dev"], ctx.rng, **dict(dict(max_edge_length=1.0), **dr.get("dev_kw", {})))
+            if dr.get("moved"):
+                devs[dkey].translate(dx=dr["moved"][0], dy=dr["moved"][1], inplace=True)
+                ctx.count("drives_on_a_device_translated_in_place_after_meshing")
         else:
             ctx.count("solves_on_a_reused_device")
         dev = devs[dkey]
